@@ -135,13 +135,19 @@ VERUS = [dict(
                             requires hash_buffer@[index as int] as int == d * (quotient as int) + (hash_buffer@[index as int] as int % d),
                                      0 <= hash_buffer@[index as int] as int % d;
                     }"""),
-                 dict(at="loop_body_end:1", text="""
+                 dict(at="after_stmt_in_loop:1:2", text="""
                     proof {
-                        let d = indices@.len() as int;
+                        let d = divisor as int;
                         let b = hash_buffer@[index as int] as int % d;
                         assert(partition as int == b) by(nonlinear_arith)
                             requires partition as int == hash_buffer@[index as int] as int - (quotient as int) * d,
                                      hash_buffer@[index as int] as int == d * (quotient as int) + b;
+                        assert(0 <= b < d);
+                    }"""),
+                 dict(at="loop_body_end:1", text="""
+                    proof {
+                        let d = indices@.len() as int;
+                        let b = hash_buffer@[index as int] as int % d;
                         assert forall|p: int| 0 <= p < indices@.len() implies
                             (#[trigger] indices@[p])@ == old(indices)@[p]@ + routed(hash_buffer@, d, p, index as int + 1) by {
                             if p == b {
@@ -152,13 +158,13 @@ VERUS = [dict(
              ]),
     ],
     mutants=[
-        dict(name="mask_off_by_one", item="fn new", find="mask: divisor - 1", replace="mask: divisor"),
-        dict(name="recip_no_plus_one", item="fn new", find="/ u128::from(divisor) + 1", replace="/ u128::from(divisor)"),
-        dict(name="carry_dropped", item="fn quotient", find="(high_product >> 64) + carry", replace="(high_product >> 64)"),
-        dict(name="carry_wrong_shift", item="fn quotient", find="(low_product >> 64)) >> 64", replace="(low_product >> 63)) >> 64"),
-        dict(name="pow2_or", item="fn partition_indices", find="*hash & mask", replace="*hash | mask"),
-        dict(name="remainder_plus", item="fn partition_indices", find="*hash - quotient * divisor", replace="*hash - quotient * (divisor - 1)"),
-        dict(name="row_index_shift", item="fn partition_indices", find="indices[partition as usize].push(index as u32)", replace="indices[partition as usize].push((index + 1) as u32)"),
+        dict(name="mask_off_by_one", item="new", find="mask: divisor - 1", replace="mask: divisor"),
+        dict(name="recip_no_plus_one", item="new", find="/ u128::from(divisor) + 1", replace="/ u128::from(divisor)"),
+        dict(name="carry_dropped", item="quotient", find="(high_product >> 64) + carry", replace="(high_product >> 64)"),
+        dict(name="carry_wrong_shift", item="quotient", find="(low_product >> 64)) >> 64", replace="(low_product >> 63)) >> 64"),
+        dict(name="pow2_or", item="partition_indices", find="*hash & mask", replace="*hash | mask"),
+        dict(name="remainder_plus", item="partition_indices", find="*hash - quotient * divisor", replace="*hash - quotient * (divisor - 1)"),
+        dict(name="row_index_shift", item="partition_indices", find="indices[partition as usize].push(index as u32)", replace="indices[partition as usize].push((index + 1) as u32)"),
     ],
 )]
 
